@@ -132,6 +132,34 @@ def vexpr(body, x, depth=0, seen=()):
 MUST_BE_FRESH = ("predicate", "empty", "nothing", "from", "choice")
 
 
+def _eps_sites(prog, body, depth=0, stack=()):
+    """(ε-insert call sites, merge_states calls) executed by a combinator body, counted through its closures and through the private helpers it
+    calls (a helper call site contributes the helper's sites): extracting `states.get_mut(&a) -> epsilons.insert(b)` into a function, or
+    turning a loop into for_each, leaves the numbers unchanged."""
+    n = merges = 0
+    bodies = [body] + [c for c in prog.bodies if c.kind == "Closure" and c.j.get("closure_root") == body.path]
+    for b in bodies:
+        for bb, term in b.calls():
+            nm = callee_name(term) or ""
+            if re.search(r"BTreeSet::<T, A>::insert$", nm) and term["args"] and (
+                    vexpr(b, term["args"][0]).endswith(".epsilons") or re.search(r"BTreeSet<automata::NFAStateId>$", (term.get("arg_tys") or [""])[0])):
+                n += 1
+            elif nm.endswith("::merge_states"):
+                merges += 1
+            else:
+                f = term["fn"]
+                cpath = f.get("resolved") if f.get("resolved_local") else (f.get("path") if f.get("local") else None)
+                callee = prog.body(cpath) if cpath else None
+                if callee is None or depth >= 3 or callee.path in stack or callee.kind not in ("Fn", "AssocFn") or callee.impl_trait or callee.file != body.file:
+                    continue
+                if callee.name in G.COMBINATORS or callee.name == "merge_states":
+                    continue
+                a, m = _eps_sites(prog, callee, depth + 1, stack + (body.path,))
+                n += a
+                merges += m
+    return n, merges
+
+
 def rule_r1(ctx, wiring):
     ctx.rule("R1-WIRING", "ε-wiring of each NFA combinator read from automata.rs equals Thompson's template (fresh or in-place variant)", floor=9)
     problems = dict()
@@ -188,19 +216,15 @@ def rule_r1(ctx, wiring):
         if body is None:
             ctx.anchor("R1-MIR", "mir-body-of-" + c)
             continue
-        n = 0
-        merges = 0
-        for bb, term in body.calls():
-            nm = callee_name(term) or ""
-            if re.search(r"BTreeSet::<T, A>::insert$", nm) and term["args"] and vexpr(body, term["args"][0]).endswith(".epsilons"):
-                n += 1
-            if nm.endswith("::merge_states"):
-                merges += 1
-        ctx.instance("R1-MIR", {"combinator": c, "mir_eps_inserts": n, "src_eps_inserts": t.extra.get("eps_inserts") if t else None, "merge_calls": merges})
-        if t is not None and (n != t.extra.get("eps_inserts") or merges != (1 if t.reserve or t.arity == "nary" else 0)):
+        n, merges = _eps_sites(ctx.prog, body)
+        # `eps_inserts_static` (when the reader provides it) also counts insert sites in branches it folded away for a literal flag argument
+        # of a shared helper: MIR contains both branches
+        want = (t.extra.get("eps_inserts_static", t.extra.get("eps_inserts")) if t else None)
+        ctx.instance("R1-MIR", {"combinator": c, "mir_eps_inserts": n, "src_eps_inserts": want, "merge_calls": merges})
+        if t is not None and (n != want or merges != (1 if t.reserve or t.arity == "nary" else 0)):
             ctx.violation("R1-MIR", "%s::%s" % (AUTOMATA_MOD, c), "src-mir-disagree",
                           "source template of NFA::%s has %s ε-insertions / merge=%s but MIR has %d / %d" % (
-                              c, t.extra.get("eps_inserts"), 1 if t.reserve or t.arity == "nary" else 0, n, merges))
+                              c, want, 1 if t.reserve or t.arity == "nary" else 0, n, merges))
     return classes
 
 
@@ -503,8 +527,427 @@ def rule_r5(ctx):
                               sites=["%s:%d" % (comp.file, t["line"])])
 
 # ------------------------------------------------------------------------------------------------
+# value terms (normalised provenance of a MIR operand) - what R4 decides on
+#
+# A term says *which value* an operand holds, not how the code is spelled: references, derefs, clones and integer casts are dropped; a
+# container made by new()/with_capacity(n)/default() is `new<Type>` (capacity is not content); `x.unwrap()` is the payload of `x`;
+# `opt.and_then(f)` / `opt.map(f)` applied to a closure literal are β-reduced with the closure's return term; captured variables of a
+# closure are replaced by the terms they have where the closure is created.
+#   ("c", text) ("arg", n) ("param", closure path, n) ("new", type) ("call", name, args) ("f", base, field) ("as", base, variant)
+#   ("idx", base, index) ("agg", label, fields, field names) ("closure", path, captures) ("bin", op, a, b) ("un", op, a)
+#   ("discr", base) ("local", body path, n) ("rv", kind)
+# ------------------------------------------------------------------------------------------------
+_TRANSPARENT = {"clone", "deref", "deref_mut", "as_ref", "as_mut", "borrow", "borrow_mut", "as_deref", "as_deref_mut", "cloned", "copied", "to_owned", "by_ref"}
+_FRESH = {"new", "with_capacity", "default", "new_in", "with_capacity_in"}
+_CONTAINER_TY = re.compile(r"^(?:std::|alloc::)?(?:[a-z_]+::)*(Vec|VecDeque|BTreeMap|BTreeSet|HashMap|HashSet)<")
+_PAYLOAD = {"unwrap": None, "expect": None, "unwrap_unchecked": None}
+
+
+def _last_seg(n):
+    n = n or "?"
+    for _ in range(6):
+        n2 = re.sub(r"<[^<>]*>", "", n)
+        if n2 == n:
+            break
+        n = n2
+    segs = [x for x in n.split("::") if x]
+    return segs[-1] if segs else "?"
+
+
+def _fold_field(base, name):
+    if base[0] == "agg":
+        label, fields, fnames = base[1], base[2], base[3]
+        if name in fnames:
+            return fields[fnames.index(name)]
+        if name.isdigit() and int(name) < len(fields) and (not fnames or all(f.isdigit() for f in fnames)):
+            return fields[int(name)]
+    if base[0] == "bin" and name == "0":
+        return base                          # value half of a checked arithmetic pair
+    if base[0] == "as" and base[1][0] == "agg" and base[1][1].endswith("::" + base[2]):
+        return _fold_field(base[1], name)
+    return ("f", base, name)
+
+
+class Terms:
+    def __init__(self, prog):
+        self.prog = prog
+        self._ret = {}
+
+    def of(self, body, x, cx=None, depth=0, seen=()):
+        if x.get("k") == "const":
+            c = x["c"]
+            if "fn" in c:
+                return ("c", "fn:" + (c["fn"].get("resolved") or c["fn"].get("path") or "?"))
+            return ("c", str(c.get("int", c.get("text", "?"))))
+        place = x["place"] if "place" in x else x
+        l, proj = place["l"], list(place["p"])
+        if depth > 40 or (body.path, l) in seen:
+            return self.proj(("local", body.path, l), proj, body, cx, depth, seen)
+        if cx is not None and l == 1 and body.kind == "Closure":
+            # the closure environment: (*_1).k / _1.k is capture k
+            rest = [e for e in proj]
+            while rest and rest[0]["k"] == "deref":
+                rest = rest[1:]
+            if rest and rest[0]["k"] == "field":
+                k = rest[0].get("i", int(rest[0]["name"]) if str(rest[0].get("name", "")).isdigit() else None)
+                if k is not None and k < len(cx["caps"]):
+                    return self.proj(cx["caps"][k], rest[1:], body, cx, depth, seen)
+            return self.proj(("param", body.path, 1), proj, body, cx, depth, seen)
+        if 0 < l <= body.arg_count:
+            if cx is not None:
+                base = cx["params"].get(l, ("param", body.path, l))
+            else:
+                base = ("param", body.path, l) if body.kind == "Closure" else ("arg", l)
+            return self.proj(base, proj, body, cx, depth, seen)
+        ds = body.defs_of(l)
+        if len(ds) != 1:
+            return self.proj(("local", body.path, l), proj, body, cx, depth, seen)
+        bb, si, rv = ds[0]
+        seen = seen + ((body.path, l),)
+        if si == "term":
+            base = self.call(body, rv, l, cx, depth, seen)
+            return self.proj(base, proj, body, cx, depth, seen)
+        k = rv["k"]
+        if k == "use":
+            base = self.of(body, rv["a"], cx, depth + 1, seen)
+        elif k in ("ref", "rawptr"):
+            base = self.of(body, rv["place"], cx, depth + 1, seen)
+        elif k == "agg":
+            fields = tuple(self.of(body, f, cx, depth + 1, seen) for f in rv["fields"])
+            if rv["ak"] == "closure":
+                base = ("closure", rv["def"], fields)
+            elif rv["ak"] == "adt":
+                label = _short_ty(rv.get("adt", "?")) + ("::" + rv["variant"] if rv.get("is_enum") and rv.get("variant") else "")
+                base = ("agg", label, fields, tuple(str(n) for n in (rv.get("fnames") or [])))
+            else:
+                base = ("agg", rv["ak"], fields, ())
+        elif k == "bin":
+            op = rv["op"].replace("WithOverflow", "").replace("Unchecked", "")
+            base = ("bin", op, self.of(body, rv["a"], cx, depth + 1, seen), self.of(body, rv["b"], cx, depth + 1, seen))
+        elif k == "cast":
+            base = self.of(body, rv["a"], cx, depth + 1, seen)
+        elif k == "un":
+            base = ("un", rv["op"], self.of(body, rv["a"], cx, depth + 1, seen))
+        elif k == "discr":
+            base = ("discr", self.of(body, rv["place"], cx, depth + 1, seen))
+        else:
+            base = ("rv", k)
+        return self.proj(base, proj, body, cx, depth, seen)
+
+    def call(self, body, t, dest_local, cx, depth, seen):
+        full = callee_name(t) or "?"
+        nm = _last_seg(full)
+        args = tuple(self.of(body, a, cx, depth + 1, seen) for a in t["args"])
+        if nm in _FRESH and _CONTAINER_TY.match(body.local_ty(dest_local) or ""):
+            return ("new", _short_ty(body.local_ty(dest_local)), "%s#%d" % (body.path, dest_local))     # identity: the variable, not just its type
+        if nm in _TRANSPARENT and len(args) == 1:
+            return args[0]
+        if nm in _PAYLOAD and args:
+            return self.payload(args[0], "Ok" if "Result" in full else "Some")
+        if nm in ("index", "index_mut") and len(args) == 2:
+            return ("call", "index", args)
+        if nm == "map" and len(args) == 2 and args[1][0] == "closure" and self.closure_ret(args[1], {2: ("hole",)}) == ("hole",):
+            return args[0]                     # x.map(|v| *v): same values
+        if nm == "get_mut":
+            nm = "get"
+        if nm == "iter_mut":
+            nm = "iter"
+        return ("call", nm, args)
+
+    def payload(self, opt, variant="Some"):
+        return self.field(("as", opt, variant), "0")
+
+    def field(self, base, name):
+        # β-reduction: payload of opt.and_then(closure) / opt.map(closure)
+        if name == "0" and base[0] == "as" and base[2] == "Some" and base[1][0] == "call" and base[1][1] in ("and_then", "map", "filter") and len(base[1][2]) == 2:
+            opt, f = base[1][2]
+            if base[1][1] == "filter":
+                return self.payload(opt)
+            if f[0] == "closure":
+                r = self.closure_ret(f, {2: self.payload(opt)})
+                if r is not None:
+                    return self.payload(r) if base[1][1] == "and_then" else r
+        return _fold_field(base, name)
+
+    def proj(self, base, proj, body, cx, depth, seen):
+        for e in proj:
+            k = e["k"]
+            if k == "deref":
+                continue
+            if k == "field":
+                base = self.field(base, str(e["name"]))
+            elif k == "downcast":
+                base = ("as", base, e["variant"])
+            elif k == "index":
+                base = ("idx", base, self.of(body, {"l": e["l"], "p": []}, cx, depth + 1, seen))
+            else:
+                base = ("idx", base, ("rv", k))
+        return base
+
+    def closure_ret(self, clo, params):
+        """return term of a closure literal applied to `params` ({param local: term}); None when the closure body is not available"""
+        cb = self.prog.body(clo[1])
+        if cb is None:
+            return None
+        return self.of(cb, {"l": 0, "p": []}, {"caps": clo[2], "params": dict(params)})
+
+    def closure_cx(self, clo, params=None):
+        return {"caps": clo[2], "params": dict(params or {})}
+
+
+def ts(t, limit=400):
+    """readable text of a term"""
+    def go(t):
+        k = t[0]
+        if k == "c":
+            return t[1]
+        if k == "arg":
+            return "arg%d" % t[1]
+        if k == "param":
+            return "%s#%d" % (t[1].split("::")[-1], t[2])
+        if k == "new":
+            return "new<%s>" % t[1]
+        if k == "call":
+            return "%s(%s)" % (t[1], ", ".join(go(a) for a in t[2]))
+        if k == "f":
+            return "%s.%s" % (go(t[1]), t[2])
+        if k == "as":
+            return "(%s as %s)" % (go(t[1]), t[2])
+        if k == "idx":
+            return "%s[%s]" % (go(t[1]), go(t[2]))
+        if k == "agg":
+            return "%s{%s}" % (t[1], ", ".join(go(a) for a in t[2]))
+        if k == "closure":
+            return "closure<%s>" % t[1]
+        if k == "bin":
+            return "%s(%s, %s)" % (t[1], go(t[2]), go(t[3]))
+        if k == "un":
+            return "%s(%s)" % (t[1], go(t[2]))
+        if k == "discr":
+            return "discr(%s)" % go(t[1])
+        if k == "local":
+            return "_%d" % t[2]
+        return "<%s>" % "/".join(str(x) for x in t[1:])
+    s = go(t) if t is not None else "None"
+    return s if len(s) <= limit else s[:limit] + ".."
+
+
+_ITER_WRAPPERS = {"into_iter", "iter", "iter_mut", "by_ref", "fuse", "peekable"}
+
+
+def strip_iter(t, allow_enumerate=False):
+    """(underlying container term, enumerated?) of an iterator term that visits every element of the container once, in its order"""
+    enum = False
+    while t[0] == "call" and len(t[2]) == 1:
+        if t[1] in _ITER_WRAPPERS:
+            t = t[2][0]
+        elif t[1] == "enumerate" and allow_enumerate and not enum:
+            enum = True
+            t = t[2][0]
+        else:
+            break
+    return t, enum
+
+
+class Region:
+    """code executed once per element of a traversal: the body of a loop driven by next() (entered on the Some edge), or the closure handed to an
+    iterator adaptor / consumer.  `elem` is the term of the element; `full` says the traversal cannot be left early from inside the region."""
+
+    def __init__(self, form, body, cx, entry, exits, blocks, elem, site_bb, full, outer_body, container=None):
+        self.form, self.body, self.cx, self.entry, self.exits, self.blocks, self.elem, self.site_bb, self.full, self.outer_body = form, body, cx, entry, exits, blocks, elem, site_bb, full, outer_body
+        self.container = container
+
+    def must_pass(self, through):
+        return self.body.cfg().must_pass(through, start=self.entry, exits=self.exits)
+
+    def describe(self):
+        return "%s over %s" % (self.form, self.body.path)
+
+
+_PER_ELEMENT_CLOSURE = {"for_each": 2, "map": 2, "flat_map": 2, "filter_map": 2, "try_for_each": 2, "fold": 3, "try_fold": 3}
+
+
+def regions_over(T, body, container_pred, cx=None, allow_enumerate=False, within=None):
+    """regions of `body` that are executed once per element of a container accepted by container_pred(term)"""
+    out = []
+    cfg = body.cfg()
+    loops = cfg.loops()
+    for bb, t in body.calls():
+        if within is not None and bb not in within:
+            continue
+        nm = _last_seg(callee_name(t))
+        if not t["args"]:
+            continue
+        if nm == "next":
+            it = T.of(body, t["args"][0], cx)
+            cont, enum = strip_iter(it, allow_enumerate)
+            if not container_pred(cont):
+                continue
+            nxt = t["t"]
+            sw = body.blocks[nxt]["term"] if nxt >= 0 else {"k": "none"}
+            if sw["k"] != "switch":
+                continue
+            some_t = none_t = None
+            for v, tg in zip(sw["vals"], sw["targets"]):
+                if str(v) == "1":
+                    some_t = tg
+                if str(v) == "0":
+                    none_t = tg
+            if some_t is None and sw["vals"] == ["0"]:
+                some_t = sw["otherwise"]
+            if none_t is None and sw["vals"] == ["1"]:
+                none_t = sw["otherwise"]
+            head = None
+            for h, blks in loops.items():
+                if bb in blks and (head is None or len(blks) < len(loops[head])):
+                    head = h
+            if some_t is None or head is None:
+                continue
+            blks = loops[head]
+            # the loop is left only through the None edge of next(): no break / return from inside
+            live = cfg.reaches(cfg.returns)
+            leaving = [(x, s_) for x in blks for s_ in cfg.succ[x] if s_ not in blks and s_ in live]
+            full = all(x == nxt and s_ == none_t for x, s_ in leaving) and not any(body.blocks[x]["term"]["k"] == "return" for x in blks)
+            elem = T.payload(("call", "next", (it,)))
+            out.append(Region("loop", body, cx, some_t, [head] + cfg.returns, set(blks), (elem, enum), bb, full, body, cont))
+        elif nm in _PER_ELEMENT_CLOSURE and len(t["args"]) >= 2:
+            it = T.of(body, t["args"][0], cx)
+            cont, enum = strip_iter(it, allow_enumerate)
+            if not container_pred(cont):
+                continue
+            clo = T.of(body, t["args"][-1], cx)
+            cb = T.prog.body(clo[1]) if clo[0] == "closure" else None
+            if cb is None:
+                continue
+            pi = _PER_ELEMENT_CLOSURE[nm]
+            ccx = T.closure_cx(clo)
+            ccfg = cb.cfg()
+            out.append(Region(nm, cb, ccx, 0, ccfg.returns, set(range(len(cb.blocks))), (("param", cb.path, pi), enum), bb, nm in ("for_each", "map", "flat_map", "filter_map"), body, cont))
+    return out
+
+
+# ------------------------------------------------------------------------------------------------
 # R4
 # ------------------------------------------------------------------------------------------------
+def _is_new(t, rx):
+    return t is not None and t[0] == "new" and re.fullmatch(rx, t[1]) is not None
+
+
+T_STATES_RX = r"BTreeMap<Rc<BTreeSet<NFAStateId>>, DFAState>"
+T_TABLE_RX = r"BTreeMap<DFAState, BTreeMap<u8, DFAState>>"
+T_INFOS_RX = r"Vec<DFAStateInfo<T>>"
+T_FLAT_RX = r"Vec<Option<DFAState>>"
+
+
+def _boxed(t):
+    """strip Vec -> Box<[T]> conversions"""
+    while t[0] == "call" and t[1] in ("into_boxed_slice", "into", "from") and len(t[2]) == 1:
+        t = t[2][0]
+    return t
+
+
+def _guard_blocks(T, region):
+    """blocks of the region that end in the density test: a switch on `element.0 == element.1.0.0` (index of the enumeration vs id of the DFA
+    state) whose failing edge diverges into assert_failed / panic"""
+    body, cx = region.body, region.cx
+    elem, enum = region.elem
+    if not enum:
+        return []
+    want = {("f", elem, "0"), ("f", ("f", ("f", elem, "1"), "0"), "0")}
+    out = []
+    for bb, t in body.terms():
+        if bb not in region.blocks or t["k"] != "switch":
+            continue
+        cond = T.of(body, t["d"], cx)
+        neg = False
+        while cond[0] == "un" and cond[1] == "Not":
+            cond, neg = cond[2], not neg
+        if cond[0] != "bin" or cond[1] not in ("Eq", "Ne") or {cond[2], cond[3]} != want:
+            continue
+        holds_on = "1" if (cond[1] == "Eq") != neg else "0"
+        fail = [tg for v, tg in zip(t["vals"], t["targets"]) if str(v) != holds_on]
+        if len(t["vals"]) == 1 and str(t["vals"][0]) == holds_on:
+            fail = [t["otherwise"]]
+        elif len(t["vals"]) == 1:
+            fail = [t["targets"][0]]
+        if len(fail) != 1:
+            continue
+        # the failing edge must not come back: every path from it ends in a diverging call
+        cfg = body.cfg()
+        reach = cfg.reachable_from(fail[0])
+        diverges = not any(body.blocks[x]["term"]["k"] == "return" for x in reach) and not (reach & {region.entry}) and \
+            any(body.blocks[x]["term"]["k"] == "call" and re.search(r"panicking::|panic", callee_name(body.blocks[x]["term"]) or "") for x in reach)
+        if diverges and bb not in reach:
+            out.append(bb)
+    return out
+
+
+def table_rows(T, comp):
+    """How DFA.states is produced.  Returns dict(problem=..) or dict(region=, row=(body, operand, cx), chain=..): the region executed once per
+    (index, (state, edges)) of enumerate(dfa_table) and the operand holding the iterator of that state's row."""
+    aggs = [(i, s["rv"]) for i, si, s in comp.assigns() if s["rv"]["k"] == "agg" and s["rv"]["ak"] == "adt" and s["rv"]["adt"].endswith("automata::DFA") and "fnames" in s["rv"]]
+    if len(aggs) != 1 or "states" not in aggs[0][1]["fnames"]:
+        return {"problem": "no unique DFA{..} literal"}
+    agg_bb, agg = aggs[0]
+    fields = dict(zip(agg["fnames"], agg["fields"]))
+    st = _boxed(T.of(comp, fields["states"]))
+    is_table = lambda c: _is_new(c, T_TABLE_RX)
+    regs = regions_over(T, comp, is_table, allow_enumerate=True)
+    regs = [r for r in regs if r.elem[1]]
+    res = {"agg_bb": agg_bb, "fields": fields, "states_term": st, "regions": regs}
+    cfg = comp.cfg()
+    if st[0] == "call" and st[1] in ("collect", "from_iter") and len(st[2]) == 1:
+        st = _boxed(st[2][0])
+        while st[0] == "call" and st[1] == "into_iter" and len(st[2]) == 1:
+            st = st[2][0]
+        res["states_term"] = st
+        if not (st[0] == "call" and st[1] == "flat_map"):
+            return dict(res, problem="DFA.states is collected from %s" % ts(st, 160))
+    if st[0] == "call" and st[1] in ("flat_map",) and len(st[2]) == 2:
+        # collect(flat_map(enumerate(table), closure)) - the closure is the region, its return value the row
+        rs = [r for r in regs if r.form == "flat_map" and T.of(comp, comp.blocks[r.site_bb]["term"]["args"][0]) == st[2][0] and st[2][1][0] == "closure" and st[2][1][1] == r.body.path]
+        if len(rs) != 1:
+            return dict(res, problem="DFA.states is a flat_map that is not over enumerate(dfa_table) with a closure literal")
+        r = rs[0]
+        ok_path = cfg.must_pass([r.site_bb], exits=[agg_bb])[0]
+        return dict(res, region=r, row=(r.body, {"l": 0, "p": []}, r.cx), fill="collect", on_every_path=ok_path)
+    if _is_new(st, T_FLAT_RX):
+        # a vector that starts empty and is only extended with rows
+        fills = []
+        other = []
+        for b2, cx2, where in [(comp, None, None)] + [(r.body, r.cx, r) for r in regs if r.body is not comp]:
+            for bb, t in b2.calls():
+                if not t["args"] or T.of(b2, t["args"][0], cx2) != st:
+                    continue
+                nm = _last_seg(callee_name(t))
+                if nm in ("len", "capacity", "is_empty", "reserve", "reserve_exact", "shrink_to_fit", "into_boxed_slice", "as_slice", "iter"):
+                    continue
+                (fills if nm in ("extend", "push", "extend_from_slice", "append") else other).append((b2, cx2, bb, t, nm))
+        if other:
+            return dict(res, problem="the table vector is also modified by %s" % sorted({o[4] for o in other}))
+        if len(fills) != 1 or fills[0][4] != "extend":
+            return dict(res, problem="the table vector is filled by %s (one extend expected)" % [f[4] for f in fills])
+        b2, cx2, bb, t, nm = fills[0]
+        src = T.of(b2, t["args"][1], cx2)
+        if src[0] == "call" and src[1] == "flat_map" and len(src[2]) == 2 and b2 is comp:
+            rs = [r for r in regs if r.form == "flat_map" and src[2][1][0] == "closure" and src[2][1][1] == r.body.path and T.of(comp, comp.blocks[r.site_bb]["term"]["args"][0]) == src[2][0]]
+            if len(rs) != 1:
+                return dict(res, problem="the table vector is extended by a flat_map that is not over enumerate(dfa_table)")
+            r = rs[0]
+            ok_path = cfg.must_pass([bb], exits=[agg_bb])[0] and not any(bb in blks for blks in cfg.loops().values())
+            return dict(res, region=r, row=(r.body, {"l": 0, "p": []}, r.cx), fill="extend(flat_map)", on_every_path=ok_path)
+        # extend(row) once per iteration of a loop / for_each over enumerate(dfa_table)
+        rs = [r for r in regs if r.body is b2 and bb in r.blocks and r.form in ("loop", "for_each")]
+        if len(rs) != 1:
+            return dict(res, problem="the extend of the table vector is not inside a traversal of enumerate(dfa_table)")
+        r = rs[0]
+        once = r.must_pass([bb])[0] and r.full
+        inner = [h for h, blks in r.body.cfg().loops().items() if bb in blks and (r.form != "loop" or len(blks) < len(r.blocks))]
+        ok_path = once and not inner and cfg.must_pass([r.site_bb], exits=[agg_bb])[0]
+        return dict(res, region=r, row=(b2, t["args"][1], cx2), fill="extend per row", on_every_path=ok_path)
+    return dict(res, problem="DFA.states is %s" % ts(st, 160))
+
+
 def rule_r4(ctx):
     prog = ctx.prog
     ctx.rule("R4-DENSITY", "compile(): the `index == state.0` assert guards every row that flows into DFA.states (MUST-PASS)", floor=3)
@@ -515,122 +958,147 @@ def rule_r4(ctx):
         ctx.anchor("R4-INFO", "compile")
         return
     where = "automata::NFA::compile"
-    T_STATES = "new<BTreeMap<Rc<BTreeSet<NFAStateId>>, DFAState>>"
-    T_TABLE = "new<BTreeMap<DFAState, BTreeMap<u8, DFAState>>>"
-    T_INFOS = "new<Vec<DFAStateInfo<T>>>"
-    ITER = "next(&into_iter(%s))" % T_STATES
+    T = Terms(prog)
     # ---- density
-    closures = [b for b in prog.bodies if b.kind == "Closure" and b.j.get("closure_root") == comp.path]
-    guard = None
-    for c in closures:
-        for bb, t in c.terms():
-            if t["k"] != "switch":
-                continue
-            cond = vexpr(c, t["d"])
-            m = re.fullmatch(r"Eq\((.+), (.+)\)", cond)
-            if not m or {m.group(1), m.group(2)} != {"arg2.0", "arg2.1.0.0"}:
-                continue
-            fail = [tg for v, tg in zip(t["vals"], t["targets"]) if str(v) == "0"]
-            if len(fail) != 1:
-                continue
-            ft = c.blocks[fail[0]]["term"]
-            if ft["k"] == "call" and re.search(r"panicking::assert_failed", callee_name(ft) or "") and ft.get("t", -1) < 0:
-                guard = (c, bb)
-    ctx.instance("R4-DENSITY", {"guard_closure": guard[0].path if guard else None})
-    if guard is None:
+    tr = table_rows(T, comp)
+    region = tr.get("region")
+    guards = _guard_blocks(T, region) if region is not None else []
+    if region is None:
+        # is there a density test anywhere over enumerate(dfa_table)?
+        for r in tr.get("regions", []):
+            if _guard_blocks(T, r):
+                guards = guards or ["elsewhere"]
+    ctx.instance("R4-DENSITY", {"rows_from": region.describe() if region else None, "fill": tr.get("fill"), "guard_blocks": guards, "problem": tr.get("problem")})
+    if region is not None and not guards or region is None and not guards:
         ctx.violation("R4-DENSITY", where, "no-density-assert",
-                      "no closure of compile() compares the enumeration index with the DFA state id (assert_eq!(index, state.0)) before emitting a table row",
+                      "nothing in compile() compares the enumeration index with the DFA state id (assert_eq!(index, state.0)) before emitting a table row",
                       sites=[comp.loc])
-    else:
-        c, bb = guard
-        ok, wit = c.cfg().must_pass([bb])
-        tyok = c.local_ty(2).startswith("(usize, (automata::DFAState")
-        ctx.instance("R4-DENSITY", {"closure_returns_pass_guard": ok, "argument": c.local_ty(2)})
-        if not ok or not tyok:
-            ctx.violation("R4-DENSITY", where, "guard-bypassed", "a path through %s returns without the index/state comparison (%s)" % (c.path, wit), sites=[c.loc])
-        # the guarded closure is what produces DFA.states
-        want = "Vec::into_boxed_slice(Iterator::collect(Iterator::flat_map(Iterator::enumerate(into_iter(%s)), closure<%s>)))" % (T_TABLE, c.path)
-        got = None
-        agg_bb = None
-        for i, si, s in comp.assigns():
-            rv = s["rv"]
-            if rv["k"] == "agg" and rv["ak"] == "adt" and rv["adt"].endswith("automata::DFA") and "fnames" in rv:
-                f = dict(zip(rv["fnames"], rv["fields"]))
-                got = {k: vexpr(comp, v) for k, v in f.items()}
-                agg_bb = i
-        fm = [bbi for bbi, t in comp.calls() if (callee_name(t) or "").endswith("Iterator::flat_map") and len(t["args"]) == 2 and vexpr(comp, t["args"][1]) == "closure<%s>" % c.path]
-        okp = bool(fm) and comp.cfg().must_pass(fm)[0]
-        ctx.instance("R4-DENSITY", {"dfa_states_field": got and got.get("states"), "flat_map_on_every_path": okp})
-        if got is None or got.get("states") != want or not okp:
+    if region is not None and guards:
+        ok, wit = region.must_pass(guards)
+        elem_ty_ok = True
+        if region.form != "loop":
+            elem_ty_ok = region.body.local_ty(region.elem[0][2]).startswith("(usize, (automata::DFAState")
+        ctx.instance("R4-DENSITY", {"every_row_passes_guard": ok, "element": ts(region.elem[0], 120)})
+        if not ok or not elem_ty_ok:
+            ctx.violation("R4-DENSITY", where, "guard-bypassed", "a path through %s produces a row without the index/state comparison (%s)" % (region.describe(), wit), sites=[region.body.loc])
+    okp = region is not None and tr.get("on_every_path")
+    ctx.instance("R4-DENSITY", {"dfa_states_field": ts(tr.get("states_term"), 200) if tr.get("states_term") else None, "rows_on_every_path": bool(okp)})
+    if region is None or not okp:
+        if guards or region is not None:
             ctx.violation("R4-DENSITY", where, "states-not-from-guarded-rows",
-                          "DFA.states is not the collected flat_map of the guarded closure over enumerate(dfa_table) on every path (found %s)" % (got and got.get("states")),
+                          "DFA.states is not built, on every path, from exactly the rows produced by the guarded traversal of enumerate(dfa_table) (%s)" % (tr.get("problem") or tr.get("fill")),
                           sites=[comp.loc])
-        if got is not None and got.get("infos") != "Vec::into_boxed_slice(%s)" % T_INFOS:
-            ctx.violation("R4-INFO", where, "infos-origin", "DFA.infos is not the info vector filled in compile (found %s)" % got.get("infos"), sites=[comp.loc])
-    # ---- infos
-    info_dest = r"\*index_mut\(&%s, \(%s as Some\)\.0\.1\.0\)" % (re.escape(T_INFOS), re.escape(ITER))
+    fields = tr.get("fields") or {}
+    INFOS = _boxed(T.of(comp, fields["infos"])) if "infos" in fields else None
+    if not _is_new(INFOS, T_INFOS_RX):
+        ctx.violation("R4-INFO", where, "infos-origin", "DFA.infos is not the info vector filled in compile (found %s)" % ts(INFOS, 160), sites=[comp.loc])
+    # ---- infos: one traversal of dfa_states; per entry (state set, id)
+    is_states = lambda c: _is_new(c, T_STATES_RX)
+    outer = [r for r in regions_over(T, comp, is_states) if r.form in ("loop", "for_each")]
     writes = {"is_accepting": [], "is_terminal": []}
-    for i, si, s in comp.assigns():
-        pl = s["place"]["p"]
-        if pl and pl[-1]["k"] == "field" and pl[-1]["name"] in writes and s["rv"]["k"] == "use":
-            writes[pl[-1]["name"]].append((vexpr(comp, s["place"]), vexpr(comp, s["rv"]["a"]), s.get("line")))
-    exp = {
-        "is_accepting": "BTreeSet::contains(&*deref(&(%s as Some).0.0), &*arg1.stop)" % ITER,
-        "is_terminal": "BTreeMap::is_empty(&*index(&%s, &(%s as Some).0.1))" % (T_TABLE, ITER),
-    }
+    tag_ins = []
+    R = outer[0] if len(outer) == 1 else None
+    # the transition table: the map whose enumeration produces the rows (when understood), else the only map of that type
+    TABLE = region.container if region is not None else None
+    if TABLE is None:
+        cands = {c for r_ in tr.get("regions", []) for c in [r_.container]}
+        TABLE = cands.pop() if len(cands) == 1 else ("new", "?", "?")
+    if R is not None:
+        E = R.elem[0]
+        SET, ID = T.field(E, "0"), T.field(E, "1")
+        slot = ("call", "index", (INFOS, T.field(ID, "0")))
+        slot_alt = T.payload(("call", "get", (INFOS, T.field(ID, "0"))))
+        for i, si, s in R.body.assigns():
+            pl = s["place"]["p"]
+            if i in R.blocks and pl and pl[-1]["k"] == "field" and pl[-1]["name"] in writes:
+                dest = T.of(R.body, {"l": s["place"]["l"], "p": pl[:-1]}, R.cx)
+                val = T.of(R.body, s["rv"]["a"], R.cx) if s["rv"]["k"] == "use" else ("rv", s["rv"]["k"])
+                writes[pl[-1]["name"]].append((dest, val, s.get("line")))
+        exp = {
+            "is_accepting": [("call", "contains", (SET, ("f", ("arg", 1), "stop")))],
+            "is_terminal": [("call", "is_empty", (("call", "index", (TABLE, ID)),)),
+                            ("call", "is_empty", (T.payload(("call", "get", (TABLE, ID))),))],
+        }
+    else:
+        slot = slot_alt = None
+        exp = {"is_accepting": [], "is_terminal": []}
     for fld in ("is_accepting", "is_terminal"):
         ws = writes[fld]
-        good = len(ws) == 1 and re.fullmatch(info_dest + r"\." + fld, ws[0][0]) and ws[0][1] == exp[fld]
-        ctx.instance("R4-INFO", {"field": fld, "writes": [(w[0], w[1]) for w in ws]})
+        good = R is not None and R.full and len(ws) == 1 and ws[0][0] in (slot, slot_alt) and ws[0][1] in exp[fld]
+        ctx.instance("R4-INFO", {"field": fld, "writes": [(ts(w[0], 160), ts(w[1], 200)) for w in ws]})
         if not good:
             ctx.violation("R4-INFO", where, fld,
-                          "%s of the DFA state info is not assigned (once) from %s for the state set / id of the same dfa_states entry; found %s" % (
-                              fld, exp[fld], [(w[0], w[1]) for w in ws]),
+                          "%s of the DFA state info is not assigned (once, for every entry of dfa_states) from %s for the state set / id of the same entry; found %s" % (
+                              fld, " | ".join(ts(e, 160) for e in exp[fld]) or "?", [(ts(w[0], 120), ts(w[1], 160)) for w in ws]),
                           sites=["%s:%s" % (comp.file, w[2]) for w in ws] or [comp.loc])
-    tag_ins = []
-    for bb, t in comp.calls():
-        if re.search(r"BTreeSet::<T, A>::insert$", callee_name(t) or "") and len(t["args"]) == 2:
-            a0 = vexpr(comp, t["args"][0])
-            if a0.endswith(".tags"):
-                tag_ins.append((bb, a0, vexpr(comp, t["args"][1]), t.get("line")))
-    member = "(next(&into_iter(BTreeSet::iter(&*deref(&(%s as Some).0.0)))) as Some).0" % ITER
+    # ---- tags: union over the member NFA states of the entry's state set
     good = False
     why = "no insert into info.tags"
-    if len(tag_ins) == 1:
-        bb, a0, a1, line = tag_ins[0]
-        m = re.fullmatch(r"Clone::clone\(&\(Option::and_then\(BTreeMap::get\(&\*arg1\.states, &\*" + re.escape(member) + r"\), closure<(.+)>\) as Some\)\.0\)", a1)
-        if not re.fullmatch("&" + info_dest + r"\.tags", a0):
-            why = "tags are inserted into %s" % a0
-        elif not m:
-            why = "inserted value is %s" % a1
+    if R is not None:
+        tags_of = lambda t: t is not None and t[0] == "f" and t[2] == "tags" and t[1] in (slot, slot_alt)
+        adds = []
+        for bb, t in R.body.calls():
+            nm = _last_seg(callee_name(t))
+            if bb in R.blocks and nm in ("insert", "extend", "append", "replace") and len(t["args"]) == 2 and tags_of(T.of(R.body, t["args"][0], R.cx)):
+                adds.append((bb, nm, t))
+        others = [(bb, _last_seg(callee_name(t))) for bb, t in comp.calls() if t["args"] and _last_seg(callee_name(t)) in ("insert", "extend", "append", "clear", "remove", "retain", "replace")
+                  and (lambda a0: a0[0] == "f" and a0[2] == "tags")(T.of(comp, t["args"][0])) and (R.body is not comp or bb not in R.blocks)]
+        tag_ins = adds
+        if len(adds) != 1 or others:
+            why = "%d additions to info.tags inside the traversal of dfa_states, %d elsewhere" % (len(adds), len(others))
         else:
-            cb = prog.body(m.group(1))
-            rets = []
-            if cb is not None:
-                for b2, t2 in cb.calls():
-                    rets.append("%s(%s)" % (_short_fn(callee_name(t2)), ", ".join(vexpr(cb, x) for x in t2["args"])))
-            nxt = [b3 for b3, t3 in comp.calls() if vexpr(comp, t3["dest"]) == member[1:-len(" as Some).0")]]
-            cfg = comp.cfg()
-            outer = [b3 for b3, t3 in comp.calls() if vexpr(comp, t3["dest"]) == ITER]
-            # the insert must flow back to the *inner* next() without leaving through the loop over dfa_states
-            in_loop = bool(nxt) and bool(outer) and bb in cfg.reachable_from(nxt[0], removed=outer) and nxt[0] in cfg.reachable_from(bb, removed=outer)
-            if rets != ["clone(&*arg2.tag)"]:
-                why = "the and_then closure computes %s instead of s.tag.clone()" % rets
-            elif not in_loop:
-                why = "the insert is not inside the loop over the member NFA states"
+            bb, nm, t = adds[0]
+            members = lambda c: c == SET
+            if nm == "insert":
+                inner = [r for r in regions_over(T, R.body, members, cx=R.cx, within=R.blocks) if r.form == "loop" and bb in r.blocks and r.blocks < R.blocks | {R.site_bb} or
+                         (r.form == "loop" and bb in r.blocks and R.form != "loop")]
+                val = T.of(R.body, t["args"][1], R.cx)
+                if len(inner) != 1:
+                    why = "the insert is not inside the loop over the member NFA states"
+                else:
+                    M = inner[0].elem[0]
+                    want = _tag_of_member(T, M)
+                    if val not in want:
+                        why = "inserted value is %s, expected the tag of self.states[member]: %s" % (ts(val, 200), ts(want[0], 160))
+                    elif not inner[0].full:
+                        why = "the loop over the member NFA states can be left early (break / return): not every member contributes its tag"
+                    else:
+                        good = True
+            elif nm == "extend":
+                src = T.of(R.body, t["args"][1], R.cx)
+                # extend(filter_map / flat_map (members, |m| tag of m))
+                if src[0] == "call" and src[1] in ("filter_map", "flat_map") and len(src[2]) == 2 and strip_iter(src[2][0])[0] == SET and src[2][1][0] == "closure":
+                    cb = prog.body(src[2][1][1])
+                    M = ("param", cb.path, 2) if cb is not None else None
+                    r = T.closure_ret(src[2][1], {}) if cb is not None else None
+                    if r is not None and T.payload(r) in _tag_of_member(T, M):
+                        good = True
+                    else:
+                        why = "the closure yields %s per member" % ts(r, 200)
+                else:
+                    why = "tags are extended from %s" % ts(src, 200)
             else:
-                good = True
+                why = "tags are changed with %s" % nm
     else:
-        why = "%d inserts into info.tags" % len(tag_ins)
-    ctx.instance("R4-INFO", {"field": "tags", "inserts": [(x[1], x[2]) for x in tag_ins]})
+        why = "%d traversals of dfa_states found (one expected)" % len(outer)
+    ctx.instance("R4-INFO", {"field": "tags", "additions": [(b_, n_) for b_, n_, t_ in tag_ins], "ok": good})
     if not good:
         ctx.violation("R4-INFO", where, "tags", "tags of a DFA state are not the union of the tags of its member NFA states: " + why,
-                      sites=["%s:%s" % (comp.file, x[3]) for x in tag_ins] or [comp.loc])
-    # the initial value of the infos: is_accepting false, tags empty
-    ctx.instance("R4-INFO", {"infos_len": [vexpr(comp, t["args"][1]) for bb, t in comp.calls() if (callee_name(t) or "").endswith("resize_with")]})
-    rs = [vexpr(comp, t["args"][1]) for bb, t in comp.calls() if (callee_name(t) or "").endswith("resize_with")]
-    if rs != ["BTreeMap::len(&%s)" % T_STATES]:
-        ctx.violation("R4-INFO", where, "infos-len", "the info vector is not sized by dfa_states.len(): %s" % rs, sites=[comp.loc])
+                      sites=["%s:%s" % (comp.file, x[2].get("line")) for x in tag_ins] or [comp.loc])
+    # the info vector has one (default) entry per DFA state before it is filled in
+    rs = [T.of(comp, t["args"][1]) for bb, t in comp.calls() if _last_seg(callee_name(t)) == "resize_with" and T.of(comp, t["args"][0]) == INFOS]
+    ctx.instance("R4-INFO", {"infos_len": [ts(r, 120) for r in rs]})
+    states_tm = R.container if R is not None else None
+    if states_tm is None or rs != [("call", "len", (states_tm,))]:
+        ctx.violation("R4-INFO", where, "infos-len", "the info vector is not sized by dfa_states.len(): %s" % [ts(r, 120) for r in rs], sites=[comp.loc])
+
+
+def _tag_of_member(T, M):
+    """terms denoting `tag` (payload) of the NFA state self.states[member]"""
+    states = ("f", ("arg", 1), "states")
+    by_get = T.payload(("call", "get", (states, M)))
+    by_index = ("call", "index", (states, M))
+    return [T.payload(("f", by_get, "tag")), T.payload(("f", by_index, "tag"))]
 
 
 # ------------------------------------------------------------------------------------------------
@@ -867,36 +1335,22 @@ def rule_r4_table(ctx):
                       if 0 < stride < alphabet else
                       "compile() stores %s = %d but a symbol is a %s (%d values): rows of the flattened table must be exactly %d entries apart" % (stride_field, stride, sym_ty, alphabet, alphabet),
                       sites=[comp.loc, tr.loc], detail={"stride": stride, "alphabet": alphabet})
-    # ---- (3) the rows compile() emits: the closure handed to flat_map over enumerate(dfa_table)
-    # (followed backwards from the `states` field of the DFA{..} literal through the one-argument adaptors collect / into_boxed_slice / into_iter)
-    rc = None
-    chain = []
-    if len(dfa_agg) == 1 and "states" in dfa_agg[0]["fnames"]:
-        x = dfa_agg[0]["fields"][dfa_agg[0]["fnames"].index("states")]
-        for _ in range(8):
-            kind, d = _single_def(comp, x)
-            if kind != "call":
-                break
-            nm = callee_name(d) or ""
-            chain.append(_short_fn(nm))
-            if nm.endswith("Iterator::flat_map") and len(d["args"]) == 2:
-                ck, cd = _single_def(comp, d["args"][1])
-                if ck == "agg" and cd.get("ak") == "closure":
-                    rc = prog.body(cd["def"])
-                break
-            if len(d["args"]) != 1:
-                break
-            x = d["args"][0]
-    if rc is None:
-        ctx.anchor("R4-TABLE", "row-closure", "DFA.states is not the collected flat_map(<closure>) over the table rows (definition chain: %s)" % " <- ".join(chain))
+    # ---- (3) the rows compile() emits: the region executed once per (index, (state, edges)) of enumerate(dfa_table) - the closure handed to
+    # flat_map, or the body of a loop that extends the table vector - and the iterator holding that state's row (table_rows)
+    T = Terms(prog)
+    tr = table_rows(T, comp)
+    region = tr.get("region")
+    if region is None:
+        ctx.anchor("R4-TABLE", "row-closure", "DFA.states is not built from one row per entry of enumerate(dfa_table): %s" % tr.get("problem"))
         return
+    rbody, rop, rcx = tr["row"]
     try:
-        lo, n, mc = row_iterator(prog, rc, _ret_operand())
+        lo, n, mc = row_iterator(prog, rbody, rop if "place" in rop or rop.get("k") == "const" else {"k": "move", "place": rop})
     except _NotConst as ex:
-        ctx.instance("R4-TABLE", {"row_closure": rc.path, "understood": False})
-        ctx.anchor("R4-TABLE", "row-iterator", "the per-state row built by %s is not a mapped integer range with constant bounds: %s" % (rc.path, ex))
+        ctx.instance("R4-TABLE", {"row_region": region.describe(), "understood": False})
+        ctx.anchor("R4-TABLE", "row-iterator", "the per-state row built by %s is not a mapped integer range with constant bounds: %s" % (region.describe(), ex))
         return
-    ctx.instance("R4-TABLE", {"row_closure": rc.path, "first_symbol": lo, "entries_per_state": n, "alphabet": alphabet})
+    ctx.instance("R4-TABLE", {"row_region": region.describe(), "first_symbol": lo, "entries_per_state": n, "alphabet": alphabet})
     if lo != 0 or n != alphabet:
         ctx.violation("R4-TABLE", where, "row-width",
                       "each state contributes the entries for symbols %d..%d (%d entries) to the flattened table, but DFA::transition addresses the row by any %s symbol "
@@ -905,24 +1359,28 @@ def rule_r4_table(ctx):
                       % (lo, lo + n - 1, n, sym_ty, stride_field, alphabet, n, alphabet - 1) if lo == 0 and 0 < n < alphabet else
                       "each state contributes the entries for symbols %d..%d (%d entries) to the flattened table; the full alphabet 0..=%d (%d entries) is required"
                       % (lo, lo + n - 1, n, alphabet - 1, alphabet),
-                      sites=[rc.loc], detail={"first": lo, "entries": n, "alphabet": alphabet})
-    # ---- (4) column j of a row is the edge for symbol j of that state
+                      sites=[rbody.loc], detail={"first": lo, "entries": n, "alphabet": alphabet})
+    # ---- (4) column j of a row is the edge for symbol j of that state: the map closure returns edges.get(&j) on the edge map of the region's element
     key = edges = ret = None
+    E = region.elem[0]
+    want_edges = T.field(T.field(E, "1"), "1")
     if mc is not None:
-        gets = [t for bb, t in mc.calls() if re.search(r"BTreeMap::<K, V, A>::get$", callee_name(t) or "") and len(t["args"]) == 2]
-        ret = fexpr(mc, _ret_operand())
-        if len(gets) == 1:
-            key = fexpr(mc, gets[0]["args"][1])
-            m = re.fullmatch(r"arg1\.(\d+)", fexpr(mc, gets[0]["args"][0]))
-            parent, agg = _closure_agg(prog, mc)
-            if m and agg is not None and parent is rc and int(m.group(1)) < len(agg["fields"]):
-                edges = fexpr(rc, agg["fields"][int(m.group(1))])
-    good = key in ("arg2", "(arg2 as u8)") and edges == "arg2.1.1" and ret is not None and "BTreeMap::get(" in ret
-    ctx.instance("R4-TABLE", {"map_closure": mc.path if mc else None, "lookup_key": key, "edge_map": edges, "entry": ret, "ok": good})
+        parent, agg = _closure_agg(prog, mc)
+        if agg is not None and parent is not None and parent.path == rbody.path:
+            mcx = {"caps": tuple(T.of(rbody, f, rcx) for f in agg["fields"]), "params": {}}
+            ret = T.of(mc, {"l": 0, "p": []}, mcx)
+            gets = [t for bb, t in mc.calls() if _last_seg(callee_name(t)) == "get" and len(t["args"]) == 2]
+            if len(gets) == 1:
+                edges = T.of(mc, gets[0]["args"][0], mcx)
+                key = T.of(mc, gets[0]["args"][1], mcx)
+    good = mc is not None and key == ("param", mc.path, 2) and edges == want_edges and ret == ("call", "get", (edges, key))
+    ctx.instance("R4-TABLE", {"map_closure": mc.path if mc else None, "lookup_key": ts(key, 80) if key else None, "edge_map": ts(edges, 160) if edges else None,
+                              "entry": ts(ret, 200) if ret else None, "ok": good})
     if not good:
         ctx.violation("R4-TABLE", where, "column-key",
-                      "entry j of a state's row must be edges.get(&j) on the edge map of the enumerated (state, edges) pair; found key %s on %s giving %s" % (key, edges, ret),
-                      sites=[(mc or rc).loc])
+                      "entry j of a state's row must be edges.get(&j) on the edge map of the enumerated (state, edges) pair; found key %s on %s giving %s" % (
+                          ts(key, 80) if key else None, ts(edges, 120) if edges else None, ts(ret, 160) if ret else None),
+                      sites=[(mc or rbody).loc])
 
 
 # ------------------------------------------------------------------------------------------------
